@@ -593,7 +593,7 @@ func httpBaseConfig(g *gen, clusters []string) string {
 	return t.b.String()
 }
 
-var httpParamPool = []string{"nope", "C0", "c0.servers", "c0.class-name", "a b", "ü", "a%2Fb", "%00", "%20", ".", "..", "x..y", "nulln.extras", "cons0.servers.0", "+", "%2e%2e"}
+var httpParamPool = []string{"nope", "C0", "c0.servers", "c0.class-name", "a b", "ü", "a%2Fb", "%00", "%20", ".", "..", "x..y", "nulln.extras", "cons0.servers.0", "c0.servers.0", "c0.servers.-1", "cons0.servers.-1", "c0.servers.00", "+", "%2e%2e"}
 
 func escSeg(s string) string {
 	// names are path-escaped, except the pool entries that are raw escapes themselves
